@@ -1,2 +1,147 @@
-(* Properties/C39.v — placeholder while the model is being tied to the code. *)
-From WK Require Import Base.Base Model.SlotFSM Model.SlotFSM_C13 Model.SlotFSM_C39.
+(* C39 — Hash-slot migration neither loses nor duplicates metadata writes.
+   Only statements, each closed by [exact] of a lemma from Proof/SlotFSM_*.v.
+
+   Model: Model/SlotFSM.v (the slot state machine with its hash-slot migration maintenance:
+   outbox, fence, applied-delta records, ack, cleanup), Model/SlotFSM_C39.v (two slot state
+   machines, a forwarder that duplicates / reorders, the case record, comparison, monitor).
+
+   * apply_delta is idempotent: a delta whose record is durable (or was staged earlier in the
+     batch) is answered ok and stages nothing; its first application stages the original
+     command's operations together with the record;
+   * exactly once, in source order: for every delivery schedule (one apply_delta per batch; by the
+     partition theorem of C13, equally for any batching) in which the source's forwarded writes
+     W_1..W_n all occur, first occurrences in source order, duplicates anywhere, the target's tables
+     are those of applying W_1..W_n once each in order;
+   * the overlap of snapshot and deltas is harmless for the user registers: replaying W_1..W_n on a
+     snapshot that already contains W_1..W_k gives every user row the value it has on the source;
+   * ordinary writes behind the migration fence are answered hash_slot_fenced and stage nothing;
+     commands for a hash slot a slot does not own are refused with the store untouched.
+   Reordered first deliveries are covered for pairwise commuting writes only by the differential
+   run (harness profile "reorder"), not by a theorem. *)
+From WK Require Import Base.Base.
+From WK Require Import Gen.Consts_C15 Gen.Consts_C17 Gen.Consts_C13.
+From WK Require Import Model.RuntimeMeta Model.ChanMigration Model.SlotFSM Model.SlotFSM_C13 Model.SlotFSM_C39.
+From WK Require Import Proof.SlotFSM_machine Proof.SlotFSM_inst Proof.SlotFSM_props Proof.SlotFSM_c39 Proof.SlotFSM_c39_link.
+Open Scope N_scope.
+
+(* ---- applied once -------------------------------------------------------------------------------------- *)
+
+Theorem c39_delta_replay_noop : forall cfg d b c s i h orig,
+  fc_slot_ok c = true -> fc_cmd c = HDelta s i h orig -> fc_hs c = h -> s <> 0 -> i <> 0 ->
+  delta_seen d b (DKey h s i) = true ->
+  fsm_stage cfg d b c = SDone b [] (R_OK, []).
+Proof. exact fsm_delta_replay_noop. Qed.
+Print Assumptions c39_delta_replay_noop.
+
+Theorem c39_delta_first : forall cfg d b c s i h o,
+  fc_slot_ok c = true -> fc_cmd c = HDelta s i h (Some o) -> fc_hs c = h -> s <> 0 -> i <> 0 ->
+  inner_ok h o = true ->
+  delta_seen d b (DKey h s i) = false ->
+  fsm_stage cfg d b c =
+  SDone (set_bs_delta b (DKey h s i :: bs_delta b)) (plain_ops h o ++ [WMarkApplied (DKey h s i)]) (R_OK, []).
+Proof. exact fsm_delta_first. Qed.
+Print Assumptions c39_delta_first.
+
+(* after a restart too: only the durable record is consulted *)
+Theorem c39_delta_idempotent : forall cfg d c s i h orig,
+  fc_slot_ok c = true -> fc_cmd c = HDelta s i h orig -> fc_hs c = h -> s <> 0 -> i <> 0 ->
+  dkey_mem (DKey h s i) (st_applied d) = true ->
+  exists d', fsm_apply_batch cfg d [c] = (d', BRes [(R_OK, [])]) /\ store_eqv d' d.
+Proof. exact fsm_delta_batch_idempotent. Qed.
+Print Assumptions c39_delta_idempotent.
+
+(* ---- no loss, no duplication ------------------------------------------------------------------------------ *)
+
+(* [ps]: the deliveries (target log index, forwarded write); [ws]: the writes in source order.
+   dstep applies a write unless its record exists. *)
+Theorem c39_no_loss_no_dup : forall cfg src h, src <> 0 ->
+  forall ps ws d,
+    Forall (fun p => wf_dlv h (snd p)) ps ->
+    (forall i, dkey_mem (DKey h src i) (st_applied d) = false) ->
+    first_occ [] (map snd ps) = ws ->
+    exists d', fsm_apply_individually cfg d (map (fun p => delta_fcmd src h (fst p) (snd p)) ps)
+               = (d', BRes (map (fun _ => (R_OK, [])) ps))
+               /\ store_eqv d' (fold_left (dstep src h) ws d).
+Proof. exact exactly_once. Qed.
+Print Assumptions c39_no_loss_no_dup.
+
+(* any schedule at all: the tables are those of its first occurrences *)
+Theorem c39_duplicates_skipped : forall src h l seen d,
+  (forall i, dkey_mem (DKey h src i) (st_applied d) = memN i seen) ->
+  fold_left (dstep src h) l d = fold_left (dstep src h) (first_occ seen l) d.
+Proof. exact first_occurrences_only. Qed.
+Print Assumptions c39_duplicates_skipped.
+
+(* the snapshot contains the first k writes, the deltas replay all of them *)
+Theorem c39_snapshot_overlap_harmless : forall hs cs k d k_hs k_uid,
+  user_get (st_users (apply_writes hs cs (apply_writes hs (firstn k cs) d))) k_hs k_uid =
+  user_get (st_users (apply_writes hs cs d)) k_hs k_uid.
+Proof. exact snapshot_overlap_harmless. Qed.
+Print Assumptions c39_snapshot_overlap_harmless.
+
+(* ---- refusals ------------------------------------------------------------------------------------------------- *)
+
+Theorem c39_fenced_refused : forall cfg d b c hs x,
+  fc_slot_ok c = true ->
+  resolveHashSlot cfg c = Some hs ->
+  isMigrationMaintenanceCommand (fc_cmd c) = false ->
+  load_state d b hs = Some x ->
+  hs_source x = cfg_slot cfg -> hs_fence_index x <> 0 ->
+  (forall t ph, mig_get (cfg_migs cfg) hs = Some (t, ph) -> t = 0 \/ t = hs_target x) ->
+  fsm_stage cfg d b c = SDone b [] (R_FENCED, []).
+Proof. exact fsm_fenced_refused. Qed.
+Print Assumptions c39_fenced_refused.
+
+Theorem c39_unowned_refused : forall cfg d cs c,
+  In c cs ->
+  fc_slot_ok c = false \/ resolveHashSlot cfg c = None ->
+  exists e, fsm_apply_batch cfg d cs = (d, BErr e).
+Proof. exact fsm_unowned_refused. Qed.
+Print Assumptions c39_unowned_refused.
+
+(* ---- the monitor -------------------------------------------------------------------------------------------------- *)
+
+(* the four clauses of C39_monitor are the four statements above read on a script: the model's own
+   run of a well-formed in-order script satisfies them (checked here on a concrete script of the
+   two-slot model; the general statements are the theorems above) *)
+Definition ex_script_model : option sys :=
+  let w1 := Entry true 12 (HUser false (hx "7531") (hx "61") 0%Z 0%Z) (hx "0101") None in
+  let w2 := Entry true 12 (HUser false (hx "7531") (hx "62") 0%Z 0%Z) (hx "0102") None in
+  let fence := Entry true 12 (HFence 12 0) (hx "0115") None in
+  let y1 := sys_step sys0 SStartDelta in
+  match y1 with
+  | Some y =>
+    let '(s1, r1) := fsm_apply_batch (y_src_cfg y) (y_src y) (to_fcmds 1 [w1; w2; fence; w1]) in
+    Some (Sys s1 (y_src_cfg y) 4 (import_hs (y_tgt y) (y_src y) HS_MIG) (y_tgt_cfg y) 0
+              (forwards_of r1) (map (fun c => (fc_index c, fc_cmd c)) (to_fcmds 1 [w1; w2; fence; w1])))
+  | None => None
+  end.
+
+(* source: two writes, the fence, one fenced write; target: deltas 1,2,1,3,2 -> the user row equals
+   the source's, each delta applied once *)
+Example c39_example :
+  match ex_script_model with
+  | Some y =>
+    let '(t', r) := fsm_apply_individually (y_tgt_cfg y) (y_tgt y) (delta_cmds y 1 [1; 2; 1; 3; 2]) in
+    list_eqb urow_eqb (filter (fun u => ur_hs u =? 12) (st_users t')) (filter (fun u => ur_hs u =? 12) (st_users (y_src y))) = true
+    /\ map dk_idx (st_applied t') = [1; 2; 3]
+    /\ map fw_index (y_fwd y) = [1; 2; 3]
+  | None => False
+  end.
+Proof. vm_compute. repeat split; reflexivity. Qed.
+
+(* the monitor accepts the traces of the two-slot model: bounded check (vm_compute) over every
+   delivery schedule of at most 5 deliveries, first occurrences in source order, delivered one
+   delta per batch or all in one batch, of a script with a pre-migration write, a write between
+   start of forwarding and snapshot, a write + fence + fenced write in one batch, a refused write
+   on the target before the switch and on the source after it; more than 200 schedules.  Bound:
+   schedule length <= 5, one register, three forwarded commands. *)
+Theorem c39_model_satisfies_monitor_bounded : forallb monitor_ok schedules = true.
+Proof. exact monitor_accepts_model_bounded. Qed.
+Print Assumptions c39_model_satisfies_monitor_bounded.
+
+(* and it is not the constant 0: a complete schedule whose first deliveries are out of source
+   order ends with different tables on the two sides, which the monitor reports *)
+Theorem c39_monitor_rejects_reordered : monitor_ok [[3]; [2]; [4]] = false.
+Proof. exact monitor_rejects_reordered. Qed.
+Print Assumptions c39_monitor_rejects_reordered.
